@@ -7,6 +7,7 @@ import (
 )
 
 var registry = map[string]core.Harness{
+	"C02": C02{},
 	"C03": C03{},
 	"C01": C01{},
 	"C04": C04{},
